@@ -149,12 +149,12 @@ def walk (bs : List Byte) : Nat → Rd → Scan → Walk
       let fsz : Int := csize - 24                          -- (int) chunk_size: the identity in the range kept here
       if (r.indx : Int) + fsz > cacheLimit then .unmodelled else
       if fsz < 16 then .err else
-      let (tag, r) := rdLE bs r 2
-      let (ch, r) := rdLE bs r 2
-      let (sr, r) := rdLE bs r 4
-      let (_, r) := rdLE bs r 4
-      let (_, r) := rdLE bs r 2
-      let (bits, r) := rdLE bs r 2
+      match rdSeq bs [2, 2, 4, 4, 2, 2] r with              -- "224422"
+      | ([tagB, chB, srB, _, _, bitsB], r) =>
+      let tag := ofLE tagB
+      let ch := ofLE chB
+      let sr := ofLE srB
+      let bits := ofLE bitsB
       -- a short read here ends the scan at this iteration with no data chunk seen (or with an error from the fmt reader)
       if r.failed then (if s.dataoffset > 0 then .unmodelled else .err) else
       if tag == 1 ∨ tag == 3 then
@@ -168,6 +168,7 @@ def walk (bs : List Byte) : Nat → Rd → Scan → Walk
         let r := if (csize - 24) % 8 != 0 then skip bs r (8 - (csize - 24) % 8) else r
         fin r { s with haveFmt := true, tag := tag, ch := ch, sr := sr, bits := bits, bytew := 1 } 0
       else .unmodelled
+      | _ => .unmodelled
     else if marker == factH then
       fin (rdLE bs r 8).2 s 0
     else if marker == dataH then
@@ -236,9 +237,16 @@ def writeHeader (c : Cfg) (s : St) (calcLen : Bool) : St :=
   let s := { s with bytes := writeAt s.bytes 0 h, dataoffset := h.length }
   { s with pos := if cur > 0 then cur else h.length }
 
-/-- w64_open in write mode on an empty store: sf.frames still holds the CALLER's value when the first header is
-    written (it reaches the 'fact' chunk of that header), then the codec's init zeroes it -/
-def openW (c : Cfg) (staleFrames : Int) : St :=
+/-- w64_open in write mode on an empty store (since the repair of w64_open: filelength, datalength, dataoffset and sf.frames
+    are reset as in wav_open / caf_open, so the caller's SF_INFO.frames is not used) -/
+def openW (c : Cfg) (_staleFrames : Int) : St :=
+  let s : St := { frames := 0, datalength := 0, dataoffset := 0 }
+  let s := writeHeader c s false
+  { s with datalength := 0, frames := 0 }
+
+/-- the rule before the repair: sf.frames still held the CALLER's value and datalength was −1 when the first header was
+    written (they reached the 'fact' chunk and the 'data' size of that header), then the codec's init zeroed them -/
+def openW_old (c : Cfg) (staleFrames : Int) : St :=
   let s : St := { frames := staleFrames }
   let s := writeHeader c s false
   { s with datalength := 0, frames := 0 }
